@@ -209,16 +209,41 @@ fn empty_res() -> Value {
 // ---------------------------------------------------------------------------------------------
 // building the exchange from a spec world
 // ---------------------------------------------------------------------------------------------
-fn instruments() -> FnvHashMap<InstrumentNameExchange, Instrument<ExchangeId, AssetNameExchange>> {
+/// The listed instruments, with an `InstrumentSpec` that varies with the world (`flavour`, a function of the initial
+/// ledger): none at all; quantities stated in QUOTE units / in the quote ASSET; CONTRACT units / the base asset.
+/// The spec describes the venue's lot and tick rules to the order-sizing code; the simulated exchange's ledger
+/// arithmetic (C08: price x quantity for a buy, quantity for a sell) does not depend on it.
+fn instruments(flavour: i64) -> FnvHashMap<InstrumentNameExchange, Instrument<ExchangeId, AssetNameExchange>> {
+    use barter_instrument::instrument::spec::{InstrumentSpec, InstrumentSpecNotional, InstrumentSpecPrice, InstrumentSpecQuantity, OrderQuantityUnits};
+    let spec_of = |k: usize, base: &str, quote: &str| -> Option<InstrumentSpec<AssetNameExchange>> {
+        let unit = match (flavour, k) {
+            (0, _) => return None,
+            (1, 0) => OrderQuantityUnits::Quote,
+            (1, _) => OrderQuantityUnits::Asset(AssetNameExchange::new(quote)),
+            (_, 0) => OrderQuantityUnits::Contract,
+            (_, _) => OrderQuantityUnits::Asset(AssetNameExchange::new(base)),
+        };
+        Some(InstrumentSpec {
+            price: InstrumentSpecPrice { min: Decimal::new(1, 2), tick_size: Decimal::new(1, 2) },
+            quantity: InstrumentSpecQuantity { unit, min: Decimal::new(1, 4), increment: Decimal::new(1, 4) },
+            notional: InstrumentSpecNotional { min: Decimal::new(1, 2) },
+        })
+    };
     LISTED
         .iter()
-        .map(|(name, base, quote)| {
+        .enumerate()
+        .map(|(k, (name, base, quote))| {
             (
                 InstrumentNameExchange::new(*name),
-                Instrument::spot(EXCHANGE, format!("mock_{name}"), *name, Underlying::new(*base, *quote), None),
+                Instrument::spot(EXCHANGE, format!("mock_{name}"), *name, Underlying::new(*base, *quote), spec_of(k, base, quote)),
             )
         })
         .collect()
+}
+
+/// which instrument specs this world's exchange is built with (stable for a given initial ledger, so a replay sees the same)
+fn spec_flavour(init: &Value) -> i64 {
+    (ASSETS.iter().map(|a| i(&init["bal"][*a], "total")).sum::<i64>() + i(init, "lat")).rem_euclid(3)
 }
 
 fn config_of(init: &Value) -> MockExecutionConfig {
@@ -335,7 +360,7 @@ impl Sut {
         let (event_tx, event_rx) = broadcast::channel(256);
         match mode {
             "direct" => Sut::Direct {
-                ex: Box::new(MockExchange::new(config, request_rx, event_tx, instruments())),
+                ex: Box::new(MockExchange::new(config, request_rx, event_tx, instruments(spec_flavour(init)))),
                 lat: i(init, "lat"),
                 _keep: (request_tx, event_rx),
             },
@@ -349,7 +374,7 @@ impl Sut {
                     event_rx,
                 });
                 let stream = client.account_stream(&[], &[]).await.expect("account stream");
-                let task = tokio::spawn(MockExchange::new(config, request_rx, event_tx, instruments()).run());
+                let task = tokio::spawn(MockExchange::new(config, request_rx, event_tx, instruments(spec_flavour(init))).run());
                 Sut::Run { client, stream, lat: i(init, "lat"), task, killed: false }
             }
             m => usage(&format!("unknown mode {m}")),
